@@ -114,6 +114,16 @@ impl EngineIf {
     pub async fn get_block(&self, ctx: &Ctx, number: BlockNumber) -> (r: Result<Block, CtxError>)
         ensures r matches Ok(b) ==> b.num() == number { unimplemented!() }
 }
+// the replica's durable voting state passes through the manager unchanged (C03 relies on it); the state itself is opaque here
+#[verifier::external_body] pub struct ReplicaStateOpaque { _p: u8 }
+impl EngineIf {
+    pub uninterp spec fn stored(&self) -> ReplicaStateOpaque;            // A5: what the execution layer holds durably
+    pub uninterp spec fn accepted(&self, s: ReplicaStateOpaque) -> bool;  // A5: set_state(s) returned Ok
+    #[verifier::external_body]
+    pub async fn get_state(&self, ctx: &Ctx) -> (r: Result<ReplicaStateOpaque, CtxError>) ensures r matches Ok(s) ==> s == self.stored() { unimplemented!() }
+    #[verifier::external_body]
+    pub async fn set_state(&self, ctx: &Ctx, state: &ReplicaStateOpaque) -> (r: Result<(), CtxError>) ensures r.is_ok() ==> self.accepted(*state) { unimplemented!() }
+}
 impl EpochSchedules { pub uninterp spec fn get(&self, e: EpochNumber) -> Option<ScheduleWithLifetime>; }
 impl WatchBlockStore {
     // A4: the content of the watch channel; every writer closure preserves BlockStore::wf (proved: try_push, update_persisted)
@@ -178,6 +188,16 @@ def add_engine(U):
         // whatever is returned IS block `number` (never a different block for that number), from the cache or from durable storage
         r matches Ok(Some(b)) ==> b.num() == number,
 """)
+    SH = [("ctx::Ctx", "Ctx"), ("validator::ReplicaState", "ReplicaStateOpaque"), ("ctx::Result<ReplicaStateOpaque>", "Result<ReplicaStateOpaque, CtxError>"),
+          ("ctx::Result<()>", "Result<(), CtxError>")]
+    SH = [(a, b, None) for a, b in SH]
+    MS = [("let t = metrics::$X;", "", 1), ("t.observe();", "", 1)]
+    U.fn(F_MGR, "impl EngineManager :: fn get_state", wrap="impl EngineManager", ret="r", header_subs=SH, subs=MS, props=["C08", "C03"],
+         rules_=("R-log", "R-errmsg", "R-underscore", "R-ctorfn"),
+         spec="    ensures r matches Ok(s) ==> s == self.interface.stored(),      // what a restart reads is what the execution layer holds\n")
+    U.fn(F_MGR, "impl EngineManager :: fn set_state", wrap="impl EngineManager", ret="r", header_subs=SH, subs=MS, props=["C08", "C03"],
+         rules_=("R-log", "R-errmsg", "R-underscore", "R-ctorfn"),
+         spec="    ensures r.is_ok() ==> self.interface.accepted(*state),        // Ok only if the execution layer accepted exactly this state\n")
     U.fn(F_MGR, "impl EngineManager :: fn queue_block", wrap="impl EngineManager", ret="r",
          header_subs=[("ctx::Ctx", "Ctx"), ("ctx::Result<()>", "Result<(), CtxError>")],
          subs=[("let t = metrics::$X;", "", 1), ("t.observe();", "", 1),
